@@ -78,7 +78,7 @@ func tokenOf(kind string) string {
 	return kind
 }
 
-var strPool = []string{"a", "A", "ab", "", " ", "1", "true", "null", "é", "😀", "a\"b", "a\\b", "a/b", "x\ny", "\t", "red", "green", "[1]", "//", "/* c */", "a,b", "]"}
+var strPool = []string{"a", "A", "ab", "", " ", "1", "true", "null", "a.b", "1.5", "v1.2", "-0", "1e5", "false", "{", "[", ".", "e", "0.0", "1.", ".5", "-1.50", "1E+2", "{}", "[1]", "a.b", "1.5", "x.", "3.14", "é", "😀", "a\"b", "a\\b", "a/b", "x\ny", "\t", "red", "green", "[1]", "//", "/* c */", "a,b", "]"}
 
 func genItem(r *rand.Rand) item {
 	switch r.Intn(9) {
@@ -360,13 +360,13 @@ func runEnum(rep *vh.Report) {
 				case 2: // near-duplicate of another kind or text
 					switch prev.kind {
 					case "string":
-						if _, err := strconv.ParseFloat(prev.dec, 64); err == nil && !strings.ContainsAny(prev.dec, "eE") && prev.dec != "" {
+						if _, err := strconv.ParseFloat(prev.dec, 64); err == nil && !strings.ContainsAny(prev.dec, "eE") && stdjson.Valid([]byte(prev.dec)) {
 							it = item{raw: prev.dec, kind: "integer", dec: prev.dec}
 							if strings.Contains(prev.dec, ".") {
 								it.kind = "float"
 							}
-						} else if prev.dec == "true" || prev.dec == "null" {
-							it = item{raw: prev.dec, kind: map[string]string{"true": "boolean", "null": "null"}[prev.dec], dec: prev.dec}
+						} else if prev.dec == "true" || prev.dec == "null" || prev.dec == "false" {
+							it = item{raw: prev.dec, kind: map[string]string{"true": "boolean", "false": "boolean", "null": "null"}[prev.dec], dec: prev.dec}
 						} else {
 							it = item{raw: encodeJSONString(r, strings.ToUpper(prev.dec)+"!", true), kind: "string", dec: strings.ToUpper(prev.dec) + "!"}
 						}
@@ -447,82 +447,121 @@ func runEnum(rep *vh.Report) {
 		if !memberExample {
 			rep.Stat("enum_example_not_member")
 		}
-		o, to := runEnumCase(text, example, example2, inline, probes)
-		if to {
-			rep.AddDiff(vh.Diff{Component: "C18-enum", Input: in, Impl: "TIMEOUT", Model: "terminates"})
-			return
-		}
-		if o.panicked != "" {
-			rep.AddDiff(vh.Diff{Component: "C18-enum", Input: in, Impl: o.panicked, Model: "no panic"})
-			continue
-		}
-		// 1. duplicates
-		if (o.ruleCheck != nil) != dup {
-			rep.AddDiff(vh.Diff{Component: "C18-enum", Input: in, Impl: "rule.Check() " + valid(o.ruleCheck) + firstLine(o.ruleCheck), Model: fmt.Sprintf("rule.Check() rejects iff two items share (decoded text, kind): duplicates=%v", dup)})
-			continue
-		}
-		// 2. Values / GetAST in source order
-		if !dup {
-			var wv, wa []string
-			for _, it := range items {
-				wv = append(wv, it.kind+":"+it.raw)
-				wa = append(wa, tokenOf(it.kind)+"/"+it.kind+":"+it.raw)
-			}
-			if want := strings.Join(wv, " | "); o.values != want {
-				rep.AddDiff(vh.Diff{Component: "C18-enum", Input: in, Impl: "Values() = " + o.values, Model: "Values() literals = " + want})
-				continue
-			}
-			if want := "array/enum[" + strings.Join(wa, " | ") + "]"; o.ast != want {
-				rep.AddDiff(vh.Diff{Component: "C18-enum", Input: in, Impl: "GetAST() = " + o.ast, Model: "GetAST() = " + want})
-				continue
-			}
-			// … and again after the schemas sharing the rule object were loaded and checked
-			if o.valuesAfter != o.values || o.astAfter != o.ast {
-				rep.AddDiff(vh.Diff{Component: "C18-enum", Input: in + "; then rule.Values() / rule.GetAST() again", Impl: "Values() = " + o.valuesAfter + " ; GetAST() = " + o.astAfter, Model: "unchanged by the use of the rule: Values() literals = " + o.values + " ; GetAST() = " + o.ast})
-				continue
+		// Strings whose content looks like another JSON kind: the case is evaluated several times in one run and
+		// every evaluation must satisfy the property (the kind of a quoted token must not depend on the run).
+		reps := 1
+		for _, it := range items {
+			if it.kind == "string" && lookalike(it.dec) {
+				reps = 8
 			}
 		}
-		// 3. named vs inline: Check verdict (scalar schemas, and objects whose two properties use the enum)
-		if (o.namedErr == nil) != (o.inlineErr == nil) || (o.named2Err == nil) != (o.inline2Err == nil) {
-			rep.AddDiff(vh.Diff{Component: "C18-enum", Input: in, Impl: "named " + valid(o.namedErr) + firstLine(o.namedErr) + ", inline " + valid(o.inlineErr) + firstLine(o.inlineErr) +
-				"; named2 " + valid(o.named2Err) + firstLine(o.named2Err) + ", inline2 " + valid(o.inline2Err) + firstLine(o.inline2Err), Model: "same Check verdict for both spellings"})
-			continue
+		if reps > 1 {
+			rep.Stat("enum_lookalike_string_cases_x8")
 		}
-		if o.namedErr != nil {
-			rep.Stat("enum_both_rejected")
-			continue
-		}
-		rep.Stat("enum_both_accepted")
-		// 4. probes: the two spellings agree, and the verdict is membership by (decoded text, kind) — C02
-		for k, p := range probes {
-			want := isMember(items, p)
-			if want {
-				rep.Stat("enum_probe_member")
-			} else {
-				rep.Stat("enum_probe_nonmember")
-			}
-			if (o.namedV[k] == nil) != (o.inlineV[k] == nil) {
-				rep.AddDiff(vh.Diff{Component: "C18-enum", Input: in + fmt.Sprintf("; Validate(json.New(\"doc\", %q))", p), Impl: "named " + valid(o.namedV[k]) + firstLine(o.namedV[k]) + ", inline " + valid(o.inlineV[k]) + firstLine(o.inlineV[k]), Model: "same Validate verdict for both spellings"})
-				break
-			}
-			if (o.inlineV[k] == nil) != want {
-				rep.AddDiff(vh.Diff{Component: "C02-enum", Input: fmt.Sprintf("jschema.New(\"inline\", %q).Validate(json.New(\"doc\", %q))", ti, p), Impl: valid(o.inlineV[k]) + firstLine(o.inlineV[k]), Model: fmt.Sprintf("accepted iff an item has the same decoded text and the same kind: %v", want)})
-				break
-			}
-			if o.named2V != nil {
-				d := "{\"a\": " + p + ", \"b\": " + probes[(k+1)%len(probes)] + "}"
-				want2 := want && isMember(items, probes[(k+1)%len(probes)])
-				if (o.named2V[k] == nil) != (o.inline2V[k] == nil) {
-					rep.AddDiff(vh.Diff{Component: "C18-enum", Input: in + fmt.Sprintf("; Validate(json.New(\"doc\", %q))", d), Impl: "named2 " + valid(o.named2V[k]) + firstLine(o.named2V[k]) + ", inline2 " + valid(o.inline2V[k]) + firstLine(o.inline2V[k]), Model: "same Validate verdict for both spellings"})
-					break
+		once := func(rpt int) (clean, fatal bool) {
+			stat := func(s string) {
+				if rpt == 0 {
+					rep.Stat(s)
 				}
-				if (o.inline2V[k] == nil) != want2 {
-					rep.AddDiff(vh.Diff{Component: "C02-enum", Input: fmt.Sprintf("jschema.New(\"inline2\", %q).Validate(json.New(\"doc\", %q))", ti2, d), Impl: valid(o.inline2V[k]) + firstLine(o.inline2V[k]), Model: fmt.Sprintf("accepted iff both values are members by (decoded text, kind): %v", want2)})
-					break
+			}
+			o, to := runEnumCase(text, example, example2, inline, probes)
+			if to {
+				rep.AddDiff(vh.Diff{Component: "C18-enum", Input: in, Impl: "TIMEOUT", Model: "terminates"})
+				return false, true
+			}
+			if o.panicked != "" {
+				rep.AddDiff(vh.Diff{Component: "C18-enum", Input: in, Impl: o.panicked, Model: "no panic"})
+				return false, false
+			}
+			// 1. duplicates
+			if (o.ruleCheck != nil) != dup {
+				rep.AddDiff(vh.Diff{Component: "C18-enum", Input: in, Impl: "rule.Check() " + valid(o.ruleCheck) + firstLine(o.ruleCheck), Model: fmt.Sprintf("rule.Check() rejects iff two items share (decoded text, kind): duplicates=%v", dup)})
+				return false, false
+			}
+			// 2. Values / GetAST in source order
+			if !dup {
+				var wv, wa []string
+				for _, it := range items {
+					wv = append(wv, it.kind+":"+it.raw)
+					wa = append(wa, tokenOf(it.kind)+"/"+it.kind+":"+it.raw)
 				}
+				if want := strings.Join(wv, " | "); o.values != want {
+					rep.AddDiff(vh.Diff{Component: "C18-enum", Input: in, Impl: "Values() = " + o.values, Model: "Values() literals = " + want})
+					return false, false
+				}
+				if want := "array/enum[" + strings.Join(wa, " | ") + "]"; o.ast != want {
+					rep.AddDiff(vh.Diff{Component: "C18-enum", Input: in, Impl: "GetAST() = " + o.ast, Model: "GetAST() = " + want})
+					return false, false
+				}
+				// … and again after the schemas sharing the rule object were loaded and checked
+				if o.valuesAfter != o.values || o.astAfter != o.ast {
+					rep.AddDiff(vh.Diff{Component: "C18-enum", Input: in + "; then rule.Values() / rule.GetAST() again", Impl: "Values() = " + o.valuesAfter + " ; GetAST() = " + o.astAfter, Model: "unchanged by the use of the rule: Values() literals = " + o.values + " ; GetAST() = " + o.ast})
+					return false, false
+				}
+			}
+			// 3. named vs inline: Check verdict (scalar schemas, and objects whose two properties use the enum)
+			if (o.namedErr == nil) != (o.inlineErr == nil) || (o.named2Err == nil) != (o.inline2Err == nil) {
+				rep.AddDiff(vh.Diff{Component: "C18-enum", Input: in, Impl: "named " + valid(o.namedErr) + firstLine(o.namedErr) + ", inline " + valid(o.inlineErr) + firstLine(o.inlineErr) +
+					"; named2 " + valid(o.named2Err) + firstLine(o.named2Err) + ", inline2 " + valid(o.inline2Err) + firstLine(o.inline2Err), Model: "same Check verdict for both spellings"})
+				return false, false
+			}
+			if o.namedErr != nil {
+				stat("enum_both_rejected")
+				return false, false
+			}
+			stat("enum_both_accepted")
+			// 4. probes: the two spellings agree, and the verdict is membership by (decoded text, kind) — C02
+			for k, p := range probes {
+				want := isMember(items, p)
+				if want {
+					stat("enum_probe_member")
+				} else {
+					stat("enum_probe_nonmember")
+				}
+				if (o.namedV[k] == nil) != (o.inlineV[k] == nil) {
+					rep.AddDiff(vh.Diff{Component: "C18-enum", Input: in + fmt.Sprintf("; Validate(json.New(\"doc\", %q))", p), Impl: "named " + valid(o.namedV[k]) + firstLine(o.namedV[k]) + ", inline " + valid(o.inlineV[k]) + firstLine(o.inlineV[k]), Model: "same Validate verdict for both spellings"})
+					return false, false
+				}
+				if (o.inlineV[k] == nil) != want {
+					rep.AddDiff(vh.Diff{Component: "C02-enum", Input: fmt.Sprintf("jschema.New(\"inline\", %q).Validate(json.New(\"doc\", %q))", ti, p), Impl: valid(o.inlineV[k]) + firstLine(o.inlineV[k]), Model: fmt.Sprintf("accepted iff an item has the same decoded text and the same kind: %v", want)})
+					return false, false
+				}
+				if o.named2V != nil {
+					d := "{\"a\": " + p + ", \"b\": " + probes[(k+1)%len(probes)] + "}"
+					want2 := want && isMember(items, probes[(k+1)%len(probes)])
+					if (o.named2V[k] == nil) != (o.inline2V[k] == nil) {
+						rep.AddDiff(vh.Diff{Component: "C18-enum", Input: in + fmt.Sprintf("; Validate(json.New(\"doc\", %q))", d), Impl: "named2 " + valid(o.named2V[k]) + firstLine(o.named2V[k]) + ", inline2 " + valid(o.inline2V[k]) + firstLine(o.inline2V[k]), Model: "same Validate verdict for both spellings"})
+						return false, false
+					}
+					if (o.inline2V[k] == nil) != want2 {
+						rep.AddDiff(vh.Diff{Component: "C02-enum", Input: fmt.Sprintf("jschema.New(\"inline2\", %q).Validate(json.New(\"doc\", %q))", ti2, d), Impl: valid(o.inline2V[k]) + firstLine(o.inline2V[k]), Model: fmt.Sprintf("accepted iff both values are members by (decoded text, kind): %v", want2)})
+						return false, false
+					}
+				}
+			}
+			return true, false
+		}
+		for rpt := 0; rpt < reps; rpt++ {
+			clean, fatal := once(rpt)
+			if fatal {
+				return
+			}
+			if !clean {
+				break
 			}
 		}
 	}
+}
+
+// lookalike: the content of a string literal that could be taken for another JSON kind (or for nothing at all).
+func lookalike(s string) bool {
+	if s == "" || strings.TrimSpace(s) == "" || strings.ContainsAny(s, ".eE{[") {
+		return true
+	}
+	if _, err := strconv.ParseFloat(s, 64); err == nil {
+		return true
+	}
+	return s == "true" || s == "false" || s == "null" || s == "-0"
 }
 
 // runEnumTwins — component "C02-enum" (property C02, enum as type-sensitive membership): inline enum lists that
